@@ -68,7 +68,7 @@ type hs13Rec struct {
 }
 
 type hs13Event struct {
-	Ev    string    `json:"ev"` // emit | deliver | drop
+	Ev    string    `json:"ev"` // emit | deliver | drop | inject (a forged record handed to Side; Recs describes it)
 	Idx   int       `json:"idx"`
 	Side  string    `json:"side"` // emit: sender; deliver/drop: addressee
 	T     int64     `json:"t"`
@@ -77,25 +77,59 @@ type hs13Event struct {
 }
 
 type hs13Case struct {
-	Kind         string      `json:"kind"`
-	Variant      string      `json:"variant"`
-	Mask         []string    `json:"mask"`
-	Events       []hs13Event `json:"events"`
-	CDone        bool        `json:"cdone"`
-	SDone        bool        `json:"sdone"`
-	CErr         string      `json:"cerr"`
-	SErr         string      `json:"serr"`
-	TDone        int64       `json:"tdone"`
-	LastFault    int64       `json:"tfault"`
-	DataOK       bool        `json:"data_ok"`
-	Interval     int64       `json:"interval_ms"`
-	NoBackoff    bool        `json:"no_backoff"`
-	SilenceFrom  int         `json:"silence_from"`
-	SilenceUntil int64       `json:"silence_until"`
-	SilenceTo    string      `json:"silence_to"`
-	ReverseTo    string      `json:"reverse_to"`
-	MTU          int         `json:"mtu"`
-	Notes        []string    `json:"notes,omitempty"`
+	Kind         string       `json:"kind"`
+	Variant      string       `json:"variant"`
+	Mask         []string     `json:"mask"`
+	Events       []hs13Event  `json:"events"`
+	CDone        bool         `json:"cdone"`
+	SDone        bool         `json:"sdone"`
+	CErr         string       `json:"cerr"`
+	SErr         string       `json:"serr"`
+	TDone        int64        `json:"tdone"`
+	LastFault    int64        `json:"tfault"`
+	DataOK       bool         `json:"data_ok"`
+	Interval     int64        `json:"interval_ms"`
+	NoBackoff    bool         `json:"no_backoff"`
+	SilenceFrom  int          `json:"silence_from"`
+	SilenceUntil int64        `json:"silence_until"`
+	SilenceTo    string       `json:"silence_to"`
+	ReverseTo    string       `json:"reverse_to"`
+	Inject       []hs13Inject `json:"inject,omitempty"`
+	MTU          int          `json:"mtu"`
+	Notes        []string     `json:"notes,omitempty"`
+}
+
+// hs13Inject: one epoch-0 handshake record that no endpoint sent (an off-path sender needs no key for
+// it), delivered at a virtual time; times must be increasing.
+type hs13Inject struct {
+	AtMs int64  `json:"at"`
+	To   string `json:"to"`
+	HT   int    `json:"ht"`
+	MS   int    `json:"ms"`
+	FO   int    `json:"fo"`
+	FL   int    `json:"fl"`
+	TL   int    `json:"tl"`
+	Seq  uint64 `json:"seq"`
+}
+
+func (i hs13Inject) raw() []byte {
+	hh, err := (&handshake.Header{
+		Type: handshake.Type(i.HT), Length: uint32(i.TL), MessageSequence: uint16(i.MS), //nolint:gosec
+		FragmentOffset: uint32(i.FO), FragmentLength: uint32(i.FL), //nolint:gosec
+	}).Marshal()
+	if err != nil {
+		panic(err)
+	}
+	body := append(hh, bytes.Repeat([]byte{0xAA}, i.FL)...)
+	rh, err := (&recordlayer.Header{
+		ContentType: protocol.ContentTypeHandshake, Version: protocol.Version1_2,
+		SequenceNumber: i.Seq, ContentLen: uint16(len(body)), //nolint:gosec
+	}).Marshal()
+	if err != nil {
+		panic(err)
+	}
+
+	return append(rh, body...)
 }
 
 type hs13Opt struct {
@@ -105,6 +139,7 @@ type hs13Opt struct {
 	SilenceUntil time.Duration // ... emitted before this virtual time ...
 	SilenceTo    string        // ... and addressed to this side ("client", "server", "both") are dropped
 	ReverseTo    string        // every burst of datagrams towards this side ("client", "server", "both") arrives in reverse order
+	Inject       []hs13Inject  // forged unprotected handshake fragments handed to one side at given virtual times
 	Limit        time.Duration
 }
 
@@ -270,6 +305,7 @@ func runHs13(t *testing.T, v c02Variant, mask []string, opt hs13Opt) hs13Case {
 	res := hs13Case{
 		Kind: "hs13", Variant: v.Name, Mask: mask, Interval: opt.Interval.Milliseconds(), NoBackoff: opt.NoBackoff,
 		SilenceFrom: opt.SilenceFrom, SilenceUntil: opt.SilenceUntil.Milliseconds(), SilenceTo: opt.SilenceTo, ReverseTo: opt.ReverseTo,
+		Inject: opt.Inject,
 	}
 	if res.Interval == 0 {
 		res.Interval = 1000
@@ -302,6 +338,7 @@ func runHs13(t *testing.T, v c02Variant, mask []string, opt hs13Opt) hs13Case {
 		at time.Duration
 	}
 	var lates []late // kept sorted by release time
+	injects := append([]hs13Inject(nil), opt.Inject...)
 	delivered := 0
 	deliver := func(d vDatagram) {
 		res.Events = append(res.Events, hs13Event{Ev: "deliver", Idx: d.Idx, Side: d.To, T: lab.Net.now().Milliseconds()})
@@ -389,7 +426,25 @@ func runHs13(t *testing.T, v c02Variant, mask []string, opt hs13Opt) hs13Case {
 			res.LastFault = lab.Net.now().Milliseconds()
 			progressed = true
 		}
-		if lab.bothDone() && len(helds) == 0 && len(lates) == 0 {
+		for len(injects) > 0 && time.Duration(injects[0].AtMs)*time.Millisecond <= lab.Net.now() {
+			in := injects[0]
+			injects = injects[1:]
+			data := in.raw()
+			res.Events = append(res.Events, hs13Event{
+				Ev: "inject", Idx: -1, Side: in.To, T: lab.Net.now().Milliseconds(),
+				Recs: []hs13Rec{{K: "hs", E: 0, Seq: in.Seq, HT: in.HT, MS: in.MS, FO: in.FO, FL: in.FL, TL: in.TL, Size: len(data)}},
+			})
+			from := "client"
+			if in.To == "client" {
+				from = "server"
+			}
+			lab.Net.deliver(in.To, from, data)
+			synctest.Wait()
+			logEmissions("deliver")
+			res.LastFault = lab.Net.now().Milliseconds()
+			progressed = true
+		}
+		if lab.bothDone() && len(helds) == 0 && len(lates) == 0 && len(injects) == 0 {
 			break
 		}
 		if progressed {
@@ -409,6 +464,9 @@ func runHs13(t *testing.T, v c02Variant, mask []string, opt hs13Opt) hs13Case {
 		wait := time.Until(deadline)
 		if len(lates) > 0 && lates[0].at-lab.Net.now() < wait {
 			wait = lates[0].at - lab.Net.now()
+		}
+		if len(injects) > 0 && time.Duration(injects[0].AtMs)*time.Millisecond-lab.Net.now() < wait {
+			wait = time.Duration(injects[0].AtMs)*time.Millisecond - lab.Net.now()
 		}
 		tm := time.NewTimer(wait)
 		select {
